@@ -87,10 +87,16 @@ IsLiteralCase(ts) ==
   \/ \E ch \in {32, 48, 65, 97, 126, 10, 13, 9, 92, 39, 0, 36, 59, 34, 35, 40, 41, 44, 47, 42, 58, 46} :
         ts = <<[t |-> "num", base |-> 256, ds |-> <<ch>>, style |-> "chr", us |-> 0]>>
 
+\* spellings that are no literal of any documented notation (a prefix without digits, two suffixes, a digit behind the
+\* suffix, a digit outside the base): a token of kind "bad" has no value, alone and as an operand
+BadLits == {"0x", "1h2h", "1b0b", "12q8", "0x12h", "0b12", "12a", "0b1b"}
+IsBadLiteralCase(ts) == \E x \in BadLits : \/ ts = <<[t |-> "bad", txt |-> x]>>
+                                            \/ ts = <<Num(P(1)), Op("+"), [t |-> "bad", txt |-> x]>>
 Tier == IF MaxOps >= 4 THEN "thorough" ELSE "quick"
 Init == c \in {<<>>}  /\ FALSE
 InitCases == \/ IsCase(c)
              \/ IsLiteralCase(c)
+             \/ IsBadLiteralCase(c)
 Next == FALSE /\ UNCHANGED c
 Emit == PrintT("CASE " \o ToJson(c))
 =============================================================================
